@@ -1,6 +1,9 @@
 // World: qlog as a lockable object (C14 only): write / writef / duplicate / flush, clock jumps across the rotation time,
 // fopen failure on rotation, allocation failure in writef. No reference model beyond "the call returns and the lock is balanced".
 #include "wutil.h"
+#ifndef QSIM_STRUCT
+#define QSIM_STRUCT 1      // 0: this adapter is built without reading any private struct field (API-level oracles only)
+#endif
 #include <pthread.h>
 #include <unistd.h>
 #include <dirent.h>
@@ -49,8 +52,10 @@ struct LogWorld : World {
     }
     void sut_destroy(Ctx &) override { if (lg) { InSut s; lg->free(lg); } lg = nullptr; cleanup(); }
     void sut_abandon() override { lg = nullptr; }
-    void *sut_mutex() override { return lg ? lg->qmutex : nullptr; }
+    void *sut_mutex() override { return nullptr; }
+#if QSIM_STRUCT
     void sut_force_unlock() override { if (lg && lg->qmutex) pthread_mutex_unlock((pthread_mutex_t *)lg->qmutex); }
+#endif
     void sut_probe(Ctx &) override { InSut s; lg->flush(lg); }
     Result sut_apply(const Op &op, Ctx &x) override {
         switch (op.k) {
